@@ -14,9 +14,14 @@ EXHAUSTIVE = {"quick": "all line sequences of length <=4 over the alphabet x the
 ALPHA = ["abc", "ABC", "  abc", "abc  ", "\tabc\t", "", "   ", "abc1", "1abc", "ab", "abc def", "x",
          # Unicode White_Space (what "trimming" and "blank" mean for a Rust str): ideographic space, no-break space
          "\u3000abc", "abc\u00a0", "\u3000"]
-PATTERNS = [r"^[a-z]+$", r"[a-z]+", r"^abc", r"abc$", r"^\s", r"\s$", r"^[a-z]{3}$", r"^(abc|x)$", r"\d", r"^.*$", r"^$", r"c d"]
+PATTERNS = [r"^[a-z]+$", r"[a-z]+", r"^abc", r"abc$", r"^\s", r"\s$", r"^[a-z]{3}$", r"^(abc|x)$", r"\d", r"^.*$", r"^$", r"c d",
+            # legal patterns that compile to a large automaton (bounded repetition over Unicode classes)
+            ]
+# legal patterns that compile to a large automaton (bounded repetition over Unicode classes); blockwatch compiles the pattern
+# once per block, so these run on a few hundred blocks instead of the full enumeration
+BIG_PATTERNS = [r"^\w{1,40}$", r"^[\w.-]{3,48}$", r"^\p{L}{2,60}$"]
 RULE = ("Bounded-exhaustive: every sequence of up to MAXLEN lines over a 15-symbol alphabet (matching, non-matching, "
-        "indented, trailing-blank, blank, Unicode-whitespace-padded and partially matching lines) x 12 anchored/unanchored patterns (including "
+        "indented, trailing-blank, blank, Unicode-whitespace-padded and partially matching lines) x 12 anchored/unanchored patterns (+3 patterns that compile to large automata, on short sequences) (including "
         "patterns that only an untrimmed line could match, `^\\s` and `\\s$`); plus random long blocks with Unicode text "
         "and CRLF. Judged by a reference model on presence, count and the designated first failing line (trimmed "
         "extent). A case is one block; non-trivial = >=2 non-blank lines; distinct = hash of (attributes, lines).")
@@ -34,6 +39,8 @@ def plan(tier, seed):
                 jobs.append({"k": "enum", "p": pi, "len": (L, L), "first": first})
     for i in range(16 if tier == "quick" else 400):
         jobs.append({"k": "rand", "i": i, "seed": seed})
+    for bi in range(len(BIG_PATTERNS)):
+        jobs.append({"k": "big", "p": bi})
     return jobs
 
 
@@ -59,6 +66,19 @@ def run_job(job, ctx):
             if blocks:
                 for c in vbatch.run_batch(ctx, blocks, "hash", "line-pattern", model, sig_prefix="C08", sets_fn=_sets):
                     acc.add(c)
+                # the same sequences with the first line on the start tag's line and the last line on the end tag's line
+                # (no empty leading piece, no trailing line terminator), LF and CRLF
+                for eol in ("\n", "\r\n"):
+                    inl = []
+                    for b in blocks:
+                        ls = b.lines
+                        if not ls or any(set(l) & set("/*\u3000\u00a0") for l in ls):
+                            continue
+                        inl.append(vbatch.BBlock(b.attrs, ls[1:-1] if len(ls) >= 2 else [], inline_first=" " + ls[0],
+                                                 inline_last=ls[-1] if len(ls) >= 2 else None))
+                    if inl:
+                        for c in vbatch.run_batch(ctx, inl, "c", "line-pattern", model, eol=eol, sig_prefix="C08", sets_fn=_sets):
+                            acc.add(c)
                 del blocks[:]
 
         for L in range(lo, hi + 1):
@@ -71,6 +91,11 @@ def run_job(job, ctx):
                 if len(blocks) >= 2500:
                     flush()
         flush()
+    elif job["k"] == "big":
+        pat = BIG_PATTERNS[job["p"]]
+        blocks = [vbatch.BBlock([("line-pattern", pat)], list(seq)) for L in (1, 2) for seq in itertools.product(ALPHA[:8], repeat=L)]
+        for c in vbatch.run_batch(ctx, blocks, "hash", "line-pattern", model, sig_prefix="C08", sets_fn=_sets):
+            acc.add(c)
     else:
         r = rng("c08", job["seed"], job["i"])
         blocks = [_random_block(r) for _ in range(40)]
